@@ -504,7 +504,25 @@ func genRepro(t *rapid.T) ReproCase {
 	for i, k := range keys {
 		js = append(js, fmt.Sprintf("%q: %d", k, i))
 	}
-	stmts := []string{"o := " + obj, "m := " + mp, "f := {|a: 0, k1: 0, zz2: 0| \\_}"}
+	// values whose own == prints (equality of containers must ask them in a fixed order) or raises
+	objQ, mapQ, objR := []string{}, []string{}, []string{}
+	for i, k := range keys {
+		objQ = append(objQ, fmt.Sprintf("%s: Q.bear({i: %d})", k, i))
+		if i < 6 {
+			mapQ = append(mapQ, fmt.Sprintf("%d: Q.bear({i: %d})", i, i), fmt.Sprintf("[%d]: Q.bear({i: %d})", i, 100+i))
+		}
+		switch {
+		case i == len(keys)/2:
+			objR = append(objR, fmt.Sprintf("%s: R.bear({i: %d})", k, i))
+		case i == len(keys)/3:
+			objR = append(objR, fmt.Sprintf("%s: -1", k))
+		default:
+			objR = append(objR, fmt.Sprintf("%s: %d", k, i))
+		}
+	}
+	stmts := []string{"o := " + obj, "m := " + mp, "f := {|a: 0, k1: 0, zz2: 0| \\_}",
+		"Q := {'==: m{|x| \"eq#{.i}\".p; .i != 3}}", "R := {'==: m{|x| raise ValueErr.new(\"eq raised\")}}",
+		"oq := {" + strings.Join(objQ, ", ") + "}", "mq := %{" + strings.Join(mapQ, ", ") + "}", "or := {" + strings.Join(objR, ", ") + "}"}
 	pool := []string{
 		"o.p", "m.p", "o.keys.p", "o.values.p", "o.items.p", "m.keys.p", "m.values.p", "m.items.p", "o@{|k, v| \"#{k}=#{v}\".p}", "m@{|k, v| [k, v].p}",
 		"o.keys(private?: true).p", "o.repr.p", "m.S.p", "{**o}.p", "%{**m}.p", "%{**o}.keys.p", "%{**m, **o}.items.p", "{**o, **{x1: 1, k1: 2}}.keys.p",
@@ -512,6 +530,8 @@ func genRepro(t *rapid.T) ReproCase {
 		"JSON.dec(`{" + strings.Join(js, ", ") + "}`).p", "JSON.dec(`{" + strings.Join(js, ", ") + "}`).keys.p", "o.S.p", "o.map {|k, v| v}.p", "m.map {|k, v| v}.p",
 		"o.items.O.p", "m.items.M.keys.p", "o.select {|k, v| v > 2}.p", "[*o.keys, *m.keys].p", "f(a: 1, k1: 2, zz2: 3, a: 4).p", "{a: 1, a: 2, b: 3, b: 4}.p", "%{[1]: 1, [1]: 2, 1: 3, 1.0: 4, 1: 5}.p",
 		"<>.next.p", "(o.keys == o.keys).p", "o.values.sum.p",
+		"(oq == o).p", "(oq == {**oq}).p", "(mq == %{**mq}).p", "(mq.values == mq.values).p", "([oq] == [o]).p", "(oq != o).p", "(or == o).p", "(o == or).p", "1.try.{|x| or == o}.A.p", "(%{1: or, 2: 5} == %{1: o, 2: 6}).p",
+		"(oq.values == o.values).p", "(%{**oq} == %{**o}).p",
 	}
 	for i := rapid.IntRange(3, 10).Draw(t, "nstmts"); i > 0; i-- {
 		stmts = append(stmts, rapid.SampledFrom(pool).Draw(t, "stmt"))
